@@ -5,6 +5,7 @@ import Mathlib.Data.Real.Basic
 import Mathlib.Order.Lattice
 import Mathlib.Tactic.Linarith
 import Mathlib.Tactic.Positivity
+import Cas.Real
 
 namespace Sat
 
@@ -61,5 +62,58 @@ theorem max4_le {a b c d u : ℝ} (ha : a ≤ u) (hb : b ≤ u) (hc : c ≤ u) (
 
 theorem le_min4 {a b c d u : ℝ} (ha : u ≤ a) (hb : u ≤ b) (hc : u ≤ c) (hd : u ≤ d) :
     u ≤ min (min (min a b) c) d := le_min (le_min (le_min ha hb) hc) hd
+
+end Sat
+
+namespace Sat
+
+/-- norm saturation as lowered by CasADi: `‖e‖ > L ? L e/‖e‖ : e` keeps the squared norm ≤ L² -/
+theorem leash (p0 p1 p2 e0 e1 e2 L : ℝ) (hL : 0 ≤ L) :
+    ((p0 + if L < Real.sqrt (e0 * e0 + e1 * e1 + e2 * e2) then L * e0 / Real.sqrt (e0 * e0 + e1 * e1 + e2 * e2) else e0) - p0) ^ 2
+    + ((p1 + if L < Real.sqrt (e0 * e0 + e1 * e1 + e2 * e2) then L * e1 / Real.sqrt (e0 * e0 + e1 * e1 + e2 * e2) else e1) - p1) ^ 2
+    + ((p2 + if L < Real.sqrt (e0 * e0 + e1 * e1 + e2 * e2) then L * e2 / Real.sqrt (e0 * e0 + e1 * e1 + e2 * e2) else e2) - p2) ^ 2
+      ≤ L ^ 2 := by
+  have hS : 0 ≤ e0 * e0 + e1 * e1 + e2 * e2 := by
+    nlinarith [mul_self_nonneg e0, mul_self_nonneg e1, mul_self_nonneg e2]
+  by_cases h : L < Real.sqrt (e0 * e0 + e1 * e1 + e2 * e2)
+  · simp only [if_pos h]
+    have hN : 0 < Real.sqrt (e0 * e0 + e1 * e1 + e2 * e2) := lt_of_le_of_lt hL h
+    have hsq : Real.sqrt (e0 * e0 + e1 * e1 + e2 * e2) ^ 2 = e0 * e0 + e1 * e1 + e2 * e2 := Real.sq_sqrt hS
+    have : (p0 + L * e0 / Real.sqrt (e0 * e0 + e1 * e1 + e2 * e2) - p0) ^ 2
+        + (p1 + L * e1 / Real.sqrt (e0 * e0 + e1 * e1 + e2 * e2) - p1) ^ 2
+        + (p2 + L * e2 / Real.sqrt (e0 * e0 + e1 * e1 + e2 * e2) - p2) ^ 2
+        = L ^ 2 * (e0 * e0 + e1 * e1 + e2 * e2) / Real.sqrt (e0 * e0 + e1 * e1 + e2 * e2) ^ 2 := by
+      field_simp; ring
+    rw [this, hsq]
+    have hS' : e0 * e0 + e1 * e1 + e2 * e2 ≠ 0 := by
+      intro h0; rw [h0, Real.sqrt_zero] at hN; exact lt_irrefl _ hN
+    rw [mul_div_assoc, div_self hS', mul_one]
+  · simp only [if_neg h]
+    have hle : Real.sqrt (e0 * e0 + e1 * e1 + e2 * e2) ≤ L := not_lt.mp h
+    have : e0 * e0 + e1 * e1 + e2 * e2 ≤ L ^ 2 := by
+      have := Real.sqrt_le_left hL |>.mp hle
+      linarith [this]
+    nlinarith [this]
+
+/-- C `remainder(x, y)` lies within half a period -/
+theorem roundHalfEven_close (q : ℝ) : |q - (CasReal.roundHalfEven q : ℝ)| ≤ 1 / 2 := by
+  unfold CasReal.roundHalfEven
+  split_ifs with h1 h2
+  · have : q - (⌊q⌋ : ℝ) = 1 / 2 := by rw [← Int.self_sub_floor] at h1; exact h1
+    rw [this]; norm_num
+  · have : q - (⌊q⌋ : ℝ) = 1 / 2 := by rw [← Int.self_sub_floor] at h1; exact h1
+    push_cast
+    rw [show q - ((⌊q⌋ : ℝ) + 1) = (q - ⌊q⌋) - 1 by ring, this]; norm_num
+  · exact abs_sub_round q
+
+theorem abs_remainder_le (x y : ℝ) (hy : 0 < y) : |CasReal.remainder x y| ≤ y / 2 := by
+  unfold CasReal.remainder
+  have h := roundHalfEven_close (x / y)
+  have : x - (CasReal.roundHalfEven (x / y) : ℝ) * y = (x / y - (CasReal.roundHalfEven (x / y) : ℝ)) * y := by
+    field_simp
+  rw [this, abs_mul, abs_of_pos hy]
+  calc |x / y - (CasReal.roundHalfEven (x / y) : ℝ)| * y ≤ 1 / 2 * y := by
+        apply mul_le_mul_of_nonneg_right h hy.le
+    _ = y / 2 := by ring
 
 end Sat
